@@ -107,6 +107,14 @@ func run(ctx context.Context, output io.Writer, input io.Reader, logError func(e
 		sb.WriteString(statements[len(statements)-1])
 	}
 
+	if err := scanner.Err(); err != nil {
+		// The input could not be read completely
+		// (I/O error, or a line longer than the scanner's buffer).
+		// Whatever is pending may be truncated, so do not compile it.
+		logError(err)
+		return fmt.Errorf("read input: %w", err)
+	}
+
 	if stmt := sb.String(); len(parser.Scan(stmt)) > 0 {
 		sql, err := pql.Compile(letStatements.String() + stmt)
 		if err != nil {
